@@ -22,7 +22,8 @@
 (***************************************************************************)
 EXTENDS Integers, Sequences, FiniteSets, TLC, Json
 
-CONSTANTS Alphabet, MaxLen
+CONSTANTS Alphabet, MaxLen,
+          Seeds      \* set of input prefixes every explored input starts with (<<>> for none); MaxLen counts the characters after the seed
 
 Letters == {"a", "n", "e"}         \* "e" stands for a 2-byte letter
 Digits  == {"1"}
@@ -35,11 +36,14 @@ VARIABLES input,      \* characters consumed so far
           tline, tcol,\* where the pending token began
           toks,       \* finished core tokens: <<kind, line, col, length in source chars>>
           outcome,
-          quotes      \* number of directly preceding double quotes (to spot triple quotes)
-vars == <<input, line, col, mode, tline, tcol, toks, outcome, quotes>>
+          quotes,     \* number of directly preceding double quotes (to spot triple quotes)
+          seed,       \* the prefix chosen for this behaviour
+          depth       \* stack of string-interpolation contexts: what to resume after `}`
+vars == <<input, line, col, mode, tline, tcol, toks, outcome, quotes, seed, depth>>
 
 Init == /\ input = <<>> /\ line = 1 /\ col = 0 /\ mode = "normal"
         /\ tline = 0 /\ tcol = 0 /\ toks = <<>> /\ outcome = "ok" /\ quotes = 0
+        /\ seed \in Seeds /\ depth = 0
 
 Tok(k, len) == <<k, tline, tcol, len>>
 Here(k) == <<k, line, col, 1>>
@@ -52,14 +56,26 @@ Flush(m) == IF m = "id" THEN Append(toks, Tok("id", col - tcol))
 Advance(c) == IF c = "l" THEN line' = line + 1 /\ col' = 0 ELSE line' = line /\ col' = col + 1
 
 Step(c) ==
-  /\ Len(input) < MaxLen
+  /\ Len(input) < Len(seed) + MaxLen
+  /\ (Len(input) < Len(seed) => c = seed[Len(input) + 1])
+  /\ UNCHANGED seed
   /\ input' = Append(input, c)
   /\ Advance(c)
   /\ quotes' = IF c = "q" /\ mode \in {"normal", "id", "num", "str"} THEN quotes + 1 ELSE 0
+  /\ depth' = IF outcome # "ok" THEN depth
+               ELSE IF mode \in {"normal", "id", "num"} /\ c = "K" /\ depth > 0 THEN depth - 1
+               ELSE IF mode = "esc" /\ c = "k" THEN depth + 1 ELSE depth
   /\ IF outcome # "ok"
      THEN UNCHANGED <<mode, tline, tcol, toks, outcome>>
      ELSE
-     CASE mode \in {"normal", "id", "num"} ->
+     CASE mode \in {"normal", "id", "num"} /\ c = "K" /\ depth > 0 ->
+            \* `}` closes an interpolated expression: the string continues; the next piece
+            \* (StrInterpMid / StrInterpRight) is positioned at the `}`
+            /\ toks' = Flush(mode) /\ mode' = "str" /\ tline' = line /\ tcol' = col
+            /\ UNCHANGED outcome
+       [] mode \in {"normal", "id", "num"} /\ c \in {"k", "K"} ->
+            /\ outcome' = "unknown" /\ UNCHANGED <<mode, tline, tcol, toks>>
+       [] mode \in {"normal", "id", "num"} ->
             IF c \in Letters
             THEN IF mode = "id" THEN UNCHANGED <<mode, tline, tcol, toks, outcome>>
                  ELSE /\ toks' = Flush(mode) /\ mode' = "id" /\ tline' = line /\ tcol' = col /\ UNCHANGED outcome
@@ -86,6 +102,10 @@ Step(c) ==
             ELSE UNCHANGED <<mode, tline, tcol, toks, outcome>>
        [] mode = "esc" ->
             IF c \in {"n", "b", "q"} THEN mode' = "str" /\ UNCHANGED <<tline, tcol, toks, outcome>>
+            ELSE IF c = "k"
+            THEN \* `\{` : the piece so far is a token (StrInterpLeft/Mid) and an expression follows
+                 /\ toks' = Append(toks, Tok("str", (col + 1) - tcol)) /\ mode' = "normal"
+                 /\ UNCHANGED <<tline, tcol, outcome>>
             ELSE outcome' = "err" /\ UNCHANGED <<mode, tline, tcol, toks>>
        [] mode = "comment" ->
             IF c = "l" THEN mode' = "normal" /\ UNCHANGED <<tline, tcol, toks, outcome>>
@@ -98,7 +118,7 @@ Spec == Init /\ [][Next]_vars
 HasTriple == \E i \in 1..(Len(input) - 2) : input[i] = "q" /\ input[i + 1] = "q" /\ input[i + 2] = "q"
 FinalOutcome == IF HasTriple THEN "unknown"
                 ELSE IF outcome # "ok" THEN outcome
-                ELSE IF mode \in {"str", "esc"} THEN "err" ELSE "ok"
+                ELSE IF mode \in {"str", "esc"} \/ depth > 0 THEN "err" ELSE "ok"
 FinalToks == Flush(mode)
 
 \* sanity of the reference itself: tokens are in source order and inside the input
